@@ -5,7 +5,7 @@ use crate::text::*;
 use insim_core::string::codepages::{to_lossy_bytes, to_lossy_string};
 use std::collections::BTreeSet;
 
-fn code_enc(letter: char) -> Option<&'static encoding_rs::Encoding> {
+pub fn code_enc(letter: char) -> Option<&'static encoding_rs::Encoding> {
     TABLE.iter().find(|(c, _)| *c == letter).and_then(|(_, id)| enc_by_ident(id))
 }
 
@@ -19,7 +19,7 @@ fn real_dec(b: &[u8]) -> Option<String> {
 }
 
 /// inline encoder table for the model: per distinct non-ASCII char, per marker letter of the code's own table
-fn inline_table(s: &str) -> String {
+pub fn inline_table(s: &str) -> String {
     let mut seen = BTreeSet::new();
     let mut parts = vec![];
     for c in s.chars().filter(|c| !c.is_ascii()) {
@@ -170,23 +170,25 @@ pub fn do_colour(ctx: &mut Ctx, x: char, seg1: &[u8], d: char, seg2: &[u8]) {
     }
 }
 
+/// a decoding plan of the model (`X:hex|8|Y:hex…`, `-` = no segment) run with encoding_rs and the code's own table
+pub fn resolve_plan(plan: &str) -> Option<String> {
+    let mut s = String::new();
+    if plan == "-" { return Some(s); }
+    for seg in plan.split('|') {
+        if seg == "8" { s.push_str("^8"); continue; }
+        let (l, h) = seg.split_once(':')?;
+        s.push_str(&dec_bytes(code_enc(l.chars().next().unwrap_or('?'))?, &unhex(h)));
+    }
+    Some(s)
+}
+
 pub fn resolve(outdir: &std::path::Path) {
     // turn the model's plan lines into strings by running encoding_rs on each segment, with the code's own table
     let text = std::fs::read_to_string(outdir.join("model.txt")).unwrap_or_default();
     let mut out = String::with_capacity(text.len());
     for line in text.lines() {
         if let Some(plan) = line.strip_prefix("plan ") {
-            let mut s = String::new();
-            let mut bad = false;
-            for seg in plan.split('|') {
-                if seg == "8" { s.push_str("^8"); continue; }
-                let (l, h) = match seg.split_once(':') { Some(x) => x, None => { bad = true; break; } };
-                match code_enc(l.chars().next().unwrap_or('?')) {
-                    Some(e) => s.push_str(&dec_bytes(e, &unhex(h))),
-                    None => { bad = true; break; },
-                }
-            }
-            out.push_str(&if bad { format!("unresolved {}", plan) } else { cps(&s) });
+            out.push_str(&match resolve_plan(plan) { Some(s) => cps(&s), None => format!("unresolved {}", plan) });
         } else {
             out.push_str(line);
         }
@@ -202,6 +204,13 @@ pub fn replay_line(ctx: &mut Ctx, l: &str) -> bool {
         ["cp.dec", h] => {
             let b = unhex(h);
             do_dec(ctx, &b, true);
+            // ^X seg1 ^y seg2 with a marker in front: the two-marker / caret-pair-inside-a-run oracles
+            let carets: Vec<usize> = b.iter().enumerate().filter(|(_, x)| **x == b'^').map(|(i, _)| i).collect();
+            if carets.len() == 2 && carets[0] == 0 && b.len() >= 2 && carets[1] >= 2 && carets[1] + 1 < b.len() && "LGCETBJHSK8".contains(b[1] as char) {
+                let (x, y) = (b[1] as char, b[carets[1] + 1] as char);
+                let (s1, s2) = (b[2..carets[1]].to_vec(), b[carets[1] + 2..].to_vec());
+                if "LGCETBJHSK8".contains(y) { do_marker2(ctx, x, &s1, y, &s2); } else { do_colour(ctx, x, &s1, y, &s2); }
+            }
             // re-run the marker oracle when the input has the shape prefix ^X seg
             if let Some(p) = b.iter().position(|x| *x == b'^') {
                 if p + 1 < b.len() && "LGCETBJHSK8".contains(b[p + 1] as char) {
@@ -312,6 +321,18 @@ pub fn run(ctx: &mut Ctx) {
             }
         }
     }
+    // … and every other printable byte after a caret that is not a marker: LFS's escapes (^c ^s ^t ^l ^h ^d ^q ^a ^v ^r ^^),
+    // the lower-case twins of the codepage letters, punctuation — none of them ends a codepage run
+    for x in "LGCETBJHSK8".chars() {
+        for d in (0x20u8..0x7f).map(|b| b as char) {
+            if "LGCETBJHSK8".contains(d) || d.is_ascii_digit() { continue; }
+            // (the bytes before the caret end on a character boundary in every table: a lead byte there would take the caret as its trail byte)
+            for (s1, s2) in [(&[0xEFu8, 0xF0, 0xE8, 0x61][..], &[0x20u8, 0xEC, 0xE8, 0xF0][..]), (&[][..], &[0xC4, 0xE0][..])] {
+                do_colour(ctx, x, s1, d, s2);
+            }
+        }
+    }
+    ctx.exhaustive_domains.push("every marker x every printable non-marker byte after a caret inside the run, high bytes on both sides".into());
     ctx.exhaustive_domains.push("every ordered pair of the eleven markers with high bytes after each (codepage switches incl. the return to Latin-1 by ^8)".into());
     ctx.exhaustive_domains.push(format!("every byte value after every marker (^L ^G ^C ^E ^T ^B ^J ^H ^S ^K ^8), alone and followed by ASCII{}", if quick { "" } else { "; all 65536 byte pairs after every marker" }));
     for _ in 0..(if quick { 3000 } else { 300_000 }) {
